@@ -214,6 +214,10 @@ func strRange(r *object.PanRange, runes []rune) object.PanObject {
 	runeArr := valRange(r, len(runes), func(i int64) object.PanObject {
 		return strIndex(i, runes)
 	})
+	if runeArr.Type() == object.ErrType {
+		return runeArr
+	}
+
 	var out bytes.Buffer
 	for _, elem := range runeArr.(*object.PanArr).Elems {
 		out.WriteString(elem.(*object.PanStr).Value)
@@ -244,6 +248,14 @@ func valRange(
 		return object.NewValueErr("cannot use 0 for range step")
 	}
 
+	// NOTE: steps beyond the size select the same elements (prevents overflow of i)
+	if step > int64(size)+1 {
+		step = int64(size) + 1
+	}
+	if step < -int64(size)-1 {
+		step = -int64(size) - 1
+	}
+
 	start, stop := fixRange(r, int64(size), step)
 
 	hasNext := func(i int64, stop int64) bool {
@@ -266,28 +278,30 @@ func canBeUsedForRange(o object.PanObject) bool {
 }
 
 func fixRange(r *object.PanRange, length int64, step int64) (int64, int64) {
+	// positions a slice can start from/stop before: [0, length] forwards,
+	// [-1, length-1] backwards (out-of-range bounds are clamped to the ends)
+	lower, upper := int64(0), length
+	if step < 0 {
+		lower, upper = -1, length-1
+	}
+
 	fix := func(i int64) int64 {
-		if i < -length {
-			return 0
-		}
-		if i > length {
-			return length
-		}
 		if i < 0 {
-			return i + length
+			i += length
+		}
+		if i < lower {
+			return lower
+		}
+		if i > upper {
+			return upper
 		}
 		return i
 	}
 
-	var start, stop int64
-
 	// default values
-	if step > 0 {
-		start = 0
-		stop = length
-	} else {
-		start = length - 1
-		stop = -1
+	start, stop := lower, upper
+	if step < 0 {
+		start, stop = upper, lower
 	}
 
 	// update by range value
